@@ -418,6 +418,8 @@ def dynamic_check(ctx, invalid, total, rule, modelled=True):
         "not_modelled": stats["not_modelled"],
     })
     ctx.cov["not_yet_proved"] = NOT_YET_PROVED
+    ctx.floor("histories_compared_with_the_model", sum(stats["compared_with_model"].values()))
+    ctx.floor("recorded_sat_answers_validated", stats.get("sat_answers_validated", 0))
     ctx.assumptions += [
         "labels are usize in the harness",
         "reservation factors 1, 3/2, 2, 3 only (dyadic: f64 product and floor are exact)",
